@@ -165,6 +165,9 @@ def run(ctx):
         if not ok:
             res.violation(case, "chart parameter shape / multi-value components not as documented", params=rp[:8]); continue
         reqs2.append({"op": "obj.load_sm", "params": rp}); metas2.append((case, d))
+    # informational: the full text written by the Lean model (modelled MSDParameter.__str__) against str(simfile), byte for byte
+    texts = ctx.lean.eval_sharded([{"op": "obj.text_sm", "sf": d} for (_, _, _, d) in metas])
+    res.stats["model_text_equals_impl_text"] = {"compared": len(texts), "different": sum(1 for (sf, _, _, _), t in zip(metas, texts) if _safe_str(sf) != t)}
     resp2 = ctx.lean.eval_sharded(reqs2)
     for (case, d), m in zip(metas2, resp2):
         if m.get("ok") != d:
@@ -185,3 +188,10 @@ def _diff(a, b):
     for i, (x, y) in enumerate(zip(a["charts"], b["charts"])):
         if x != y: return {"chart": i, "impl": str(x)[:300], "expected": str(y)[:300]}
     return {"charts_len": [len(a["charts"]), len(b["charts"])]}
+
+
+def _safe_str(sf):
+    try:
+        return str(sf)
+    except Exception:
+        return None
